@@ -205,6 +205,34 @@ Proof.
   - repeat constructor; nia.
 Qed.
 
+Lemma terms_eqb_eq : forall a b, terms_eqb a b = true -> a = b.
+Proof.
+  induction a as [|[x y] a IH]; destruct b as [|[u v] b]; cbn; try discriminate; [reflexivity|].
+  unfold terms_eqb. cbn. intros H. apply andb_true_iff in H. destruct H as [Hl H].
+  apply andb_true_iff in H. destruct H as [Hh Ht]. apply andb_true_iff in Hh. destruct Hh as [H1 H2].
+  apply Bool.eqb_prop in H1, H2. subst. f_equal. apply IH. unfold terms_eqb. now rewrite Hl, Ht.
+Qed.
+
+Lemma sum4 : forall (f : Z -> Z) a1 a2 a3 a4 b1 b2 b3 b4, a1 = b1 -> a2 = b2 -> a3 = b3 -> a4 = b4 ->
+  f a1 + (f a2 + (f a3 + (f a4 + 0))) = f b1 + f b2 + f b3 + f b4.
+Proof. intros; subst; ring. Qed.
+
+(** The bilinear filter writes the floor of the mean of the 2x2 parent block, channel by channel. *)
+Theorem bilinear_is_block_mean : forall c terms div, scale_spec c -> terms_eqb terms block_terms = true -> div = 4 ->
+  forall src w h x y ch, 0 < w -> 0 < h -> 0 <= x < w -> 0 <= y < h ->
+    let sw := 2 * w in let sh := 2 * h in
+    bilinear c terms div src sw sh w h x y ch
+    = (src (texel_off sw (2 * x) (2 * y) + ch) + src (texel_off sw (2 * x + 1) (2 * y) + ch)
+       + src (texel_off sw (2 * x) (2 * y + 1) + ch) + src (texel_off sw (2 * x + 1) (2 * y + 1) + ch)) / 4.
+Proof.
+  intros c terms div Hc Ht -> src w h x y ch Hw Hh Hx Hy sw sh.
+  apply terms_eqb_eq in Ht. subst terms. unfold bilinear, block_terms, term_off. cbn [map fold_right fst snd].
+  destruct (Hc sw sh w h ltac:(now right)) as [E1 [E2 [E3 E4]]]. rewrite E1, E2, E3, E4.
+  assert (Z.eqb w sw = false) as -> by (apply Z.eqb_neq; unfold sw; lia).
+  assert (Z.eqb h sh = false) as -> by (apply Z.eqb_neq; unfold sh; lia).
+  unfold texel_off. subst sw sh. f_equal. apply sum4; ring.
+Qed.
+
 (** Same size in one direction (never produced by the mip table, but allowed by [rescale_from]). *)
 Theorem scale_down_row : forall c, scale_spec c ->
   forall w h x y, 0 < w -> 0 < h -> 0 <= x < w -> 0 <= y < h ->
